@@ -462,6 +462,11 @@ class Ownership:
             self.add(prop, "R05.3", "%s:index-add" % key, ok, f.loc(w),
                      "a path through %s attaches %s without adding it to the owner's index: %s"
                      % (key, elem, _p(cfg, wit)), 2)
+            early = [h for h in hits if any(pd in cfg.reachable(h) for pd in prev)]
+            self.add(prop, "R05.3", "%s:index-add-after-leave" % key, not early, f.loc(w),
+                     "%s adds %s to the owner's index before removing it from its previous owner: "
+                     "when the previous owner is this very owner the queued events are ADD then "
+                     "DISCARD and an incremental replay drops a live member" % (key, elem), 2)
 
         # (e) store
         if rel.kind == "set":
@@ -696,6 +701,31 @@ class Ownership:
                                  "ownership hook self._remove(self._data[k])"
                                  % (unparse(m)[:50], f.qualname), 2)
         self.counts["list_store_sites"] = sites
+        self._int_index_domain(classes)
+
+    def _int_index_domain(self, classes: List[ClassInfo]) -> None:
+        """for a plain integer index the hooks must visit exactly that position: the index set
+        is range(i, i + 1) / the index itself - never a slice built from it (slice(i, i + 1) is
+        empty for i == -1, so the element would leave the list un-unlinked)"""
+        for c in classes:
+            for f in c.methods.values():
+                ps = f.param_names()
+                if f.name not in ("__setitem__", "__delitem__") or len(ps) < 2:
+                    continue
+                idx = ps[1]
+                bad = []
+                for n in walk_no_nested(f.node):
+                    if isinstance(n, ast.Call) and attr_path(n.func) == ("slice",) and len(n.args) >= 2:
+                        names = {x.id for a in n.args for x in ast.walk(a) if isinstance(x, ast.Name)}
+                        if idx in names:
+                            bad.append(n)
+                self.functions.add(f.qualname)
+                self.add("C04", "R03.3", "%s:int-index-visits-that-position" % f.qualname, not bad,
+                         f.loc(bad[0]) if bad else f.loc(),
+                         "%s turns an integer index into %s: for a negative index the slice is empty, "
+                         "the ownership hooks visit nothing, and the element is removed from (or "
+                         "replaced in) the list while it still names the list's owner"
+                         % (f.qualname, unparse(bad[0]) if bad else ""), 2)
 
     # ------------------------------------------------------------------
     def children_of(self, cls: ClassInfo) -> List[Tuple[str, Relation]]:
